@@ -176,4 +176,897 @@ theorem all_rejected_of_scan (ty : V → Bool) (f) (mb : List V) (c c' : Nat)
       have := hs.le
       omega
 
+theorem set_getD_self (l : List Nat) (r : Nat) (h : r < l.length) : l.set r (l.getD r 0) = l := by
+  have : l.getD r 0 = l[r] := by simp [List.getD, h]
+  rw [this]; exact List.set_getElem_self h
+
+theorem getD_set_self (l : List Nat) (r c : Nat) (h : r < l.length) : (l.set r c).getD r 0 = c := by
+  simp [List.getD, h]
+
+theorem getD_set_ne (l : List Nat) (r k c : Nat) (h : k ≠ r) : (l.set r c).getD k 0 = l.getD k 0 := by
+  simp [List.getD, Ne.symm h]
+
+theorem SrcSound.of_split (ty : V → Bool) (f) (pre post : List V) (m : V)
+    (h : ∀ x ∈ pre, accepts ty f x = false) : SrcSound ty f (pre ++ m :: post) pre.length :=
+  ⟨by simp, by simpa using h⟩
+
+/-- a sound cursor that points at an accepted message: it is the first accepted one -/
+theorem firstIdx_of_sound_at (ty : V → Bool) (f) (mb : List V) (c : Nat) (m : V)
+    (hs : SrcSound ty f mb c) (hm : mb[c]? = some m) (ha : accepts ty f m = true) :
+    firstIdx (accepts ty f) mb = some c := by
+  obtain ⟨hlt, hget⟩ := List.getElem?_eq_some_iff.mp hm
+  have hsplit : mb = mb.take c ++ m :: mb.drop (c + 1) := by
+    rw [← hget]; simp
+  have hlen : (mb.take c).length = c := by simp [Nat.le_of_lt hlt]
+  have := firstIdx_split (accepts ty f) (mb.take c) (mb.drop (c + 1)) m hs.rejected ha
+  rw [← hsplit, hlen] at this
+  exact this
+
+theorem SrcSound.succ_of_rejected (ty : V → Bool) (f) (mb : List V) (c : Nat) (m : V)
+    (hs : SrcSound ty f mb c) (hm : mb[c]? = some m) (ha : accepts ty f m = false) :
+    SrcSound ty f mb (c + 1) := by
+  obtain ⟨hlt, hget⟩ := List.getElem?_eq_some_iff.mp hm
+  refine ⟨hlt, ?_⟩
+  intro x hx
+  rw [List.take_add_one] at hx
+  rcases List.mem_append.mp hx with hx | hx
+  · exact hs.rejected x hx
+  · simp [hm] at hx; subst hx; exact ha
+
+
+/-- Post-condition of handling receive source `r` (`ty`, `f`) on mailbox `mb` and live state `st`;
+    `rcv` is the receiving slot the new state has in the `continue_` case. -/
+def RecvPost (mb : List V) (st : SelState V) (r : Nat) (ty : V → Bool) (f : Option (V → FilterRes V))
+    (rcv : Option (Nat × V)) (mb' : List V) (st' : SelState V) : RecvRes V → Prop
+  | .complete m => ∃ i, firstIdx (accepts ty f) mb = some i ∧ mb[i]? = some m ∧ mb' = mb.eraseIdx i
+  | .called =>
+      mb' = mb ∧ ∃ i m g, f = some g ∧
+        st' = { st with receiving := some (r, m), cursors := st.cursors.set r i } ∧
+        SrcSound ty f mb i ∧ ty m = true ∧ mb[i]? = some m
+  | .continue_ =>
+      mb' = mb ∧ firstIdx (accepts ty f) mb = none ∧
+        ∃ c', SrcSound ty f mb c' ∧ st' = { st with cursors := st.cursors.set r c', receiving := rcv }
+  | .error _ => False
+  | .panic => False
+
+/-- What `scan_mailbox_for_message` does for receive source `r` whose live cursor is sound. -/
+theorem scanMailbox_spec (mb : List V) (st snapshot : SelState V) (r : Nat) (ty : V → Bool)
+    (f : Option (V → FilterRes V)) (hlen : r < st.cursors.length)
+    (hs : SrcSound ty f mb (st.cursors.getD r 0)) (mb' : List V) (st' : SelState V) (res : RecvRes V)
+    (h : scanMailbox mb st snapshot r ty f = (mb', st', res)) :
+    RecvPost mb st r ty f st.receiving mb' st' res := by
+  unfold scanMailbox at h
+  simp only [] at h
+  cases hscan : scanFrom ty (mb.drop (st.cursors.getD r 0)) (st.cursors.getD r 0) (st.cursors.getD r 0) with
+  | inl im =>
+    obtain ⟨i, m⟩ := im
+    rw [hscan] at h
+    obtain ⟨pre, post, h1, h2, h3, h4⟩ := split_of_scan ty f mb _ i m hs hscan
+    cases f with
+    | none =>
+      simp only [Prod.mk.injEq] at h
+      obtain ⟨rfl, rfl, rfl⟩ := h
+      refine ⟨i, ?_, ?_, rfl⟩
+      · subst h1 h2
+        exact firstIdx_split _ pre post m h4 (by simp [accepts, h3])
+      · subst h1 h2; simp
+    | some g =>
+      simp only [hlen, if_true, Prod.mk.injEq] at h
+      obtain ⟨rfl, rfl, rfl⟩ := h
+      refine ⟨rfl, i, m, g, rfl, rfl, ?_, h3, ?_⟩
+      · subst h1 h2; exact SrcSound.of_split ty _ pre post m h4
+      · subst h1 h2; simp
+  | inr c' =>
+    rw [hscan] at h
+    obtain ⟨h1, h2⟩ := all_rejected_of_scan ty f mb _ c' hs hscan
+    have hnone := firstIdx_none_of_all_false (accepts ty f) mb h1
+    have hsound : SrcSound ty f mb c' := by
+      rcases h2 with h2 | h2
+      · rw [h2]; exact hs
+      · rw [h2]; exact SrcSound.full ty f mb h1
+    simp only [] at h
+    split at h
+    · simp only [Prod.mk.injEq] at h
+      obtain ⟨rfl, rfl, rfl⟩ := h
+      exact ⟨rfl, hnone, c', hsound, rfl⟩
+    · simp only [Prod.mk.injEq] at h
+      obtain ⟨rfl, rfl, rfl⟩ := h
+      refine ⟨rfl, hnone, st.cursors.getD r 0, hs, ?_⟩
+      rw [set_getD_self _ _ hlen]
+
+
+/-- The facts about the snapshot's `receiving` slot when it names receive source `r`: the slot holds
+    the message the live cursor `c` points at, the source has a body `g`, and the verdict on the
+    stack is what `g` returns on that message (filters are pure). -/
+def RecvOK (snapshot : SelState V) (verdict : Option (Yield V)) (mb : List V) (c r : Nat)
+    (ty : V → Bool) (f : Option (V → FilterRes V)) : Prop :=
+  ∀ m, snapshot.receiving = some (r, m) →
+    ∃ g rr, f = some g ∧ g m = .ret rr ∧ verdict = some rr ∧ ty m = true ∧ mb[c]? = some m
+
+/-- the live `receiving` slot after source `r` answered `continue_` -/
+def rcvAfter (snapshot st : SelState V) (r : Nat) : Option (Nat × V) :=
+  match snapshot.receiving with
+  | some (idx, _) => if idx = r then none else st.receiving
+  | none => st.receiving
+
+theorem handleSelectReceive_spec (mb : List V) (st snapshot : SelState V) (r : Nat) (ty : V → Bool)
+    (f : Option (V → FilterRes V)) (verdict : Option (Yield V)) (hlen : r < st.cursors.length)
+    (hs : SrcSound ty f mb (st.cursors.getD r 0))
+    (hr : RecvOK snapshot verdict mb (st.cursors.getD r 0) r ty f)
+    (mb' : List V) (st' : SelState V) (res : RecvRes V)
+    (h : handleSelectReceive mb st snapshot r ty f verdict = (mb', st', res)) :
+    RecvPost mb st r ty f (rcvAfter snapshot st r) mb' st' res := by
+  unfold handleSelectReceive at h
+  cases hsn : snapshot.receiving with
+  | none =>
+    rw [hsn] at h
+    simp only [rcvAfter, hsn]
+    exact scanMailbox_spec mb st snapshot r ty f hlen hs mb' st' res h
+  | some im =>
+    obtain ⟨idx, m⟩ := im
+    rw [hsn] at h
+    simp only [] at h
+    by_cases hidx : idx = r
+    · subst hidx
+      obtain ⟨g, rr, hf, hg, hv, htm, hget⟩ := hr m hsn
+      simp only [if_true] at h
+      subst hv
+      cases rr with
+      | value a =>
+        simp only [handleReceiveResult, Prod.mk.injEq] at h
+        obtain ⟨rfl, rfl, rfl⟩ := h
+        refine ⟨st.cursors.getD idx 0, ?_, hget, rfl⟩
+        apply firstIdx_of_sound_at ty f mb _ m hs hget
+        simp [accepts, htm, hf, hg]
+      | nil =>
+        simp only [handleReceiveResult, hlen, if_true] at h
+        have hrej : accepts ty f m = false := by simp [accepts, hf, hg]
+        have hlen1 : idx < (st.cursors.set idx (st.cursors.getD idx 0 + 1)).length := by simpa using hlen
+        have hs1 : SrcSound ty f mb ((st.cursors.set idx (st.cursors.getD idx 0 + 1)).getD idx 0) := by
+          rw [getD_set_self _ _ _ hlen]
+          exact SrcSound.succ_of_rejected ty f mb _ m hs hget hrej
+        have := scanMailbox_spec mb
+          { st with cursors := st.cursors.set idx (st.cursors.getD idx 0 + 1), receiving := none }
+          snapshot idx ty f hlen1 hs1 mb' st' res h
+        have hra : rcvAfter snapshot st idx = none := by simp [rcvAfter, hsn]
+        rw [hra]
+        cases res with
+        | complete m' => exact this
+        | called =>
+          obtain ⟨h1, i, m', g', h2, h3, h4, h5, h6⟩ := this
+          refine ⟨h1, i, m', g', h2, ?_, h4, h5, h6⟩
+          rw [h3]; simp [List.set_set]
+        | continue_ =>
+          obtain ⟨h1, h2, c', h3, h4⟩ := this
+          refine ⟨h1, h2, c', h3, ?_⟩
+          rw [h4]; simp [List.set_set]
+        | error e => exact this
+        | panic => exact this
+    · simp only [hidx, if_false] at h
+      have hra : rcvAfter snapshot st r = st.receiving := by simp [rcvAfter, hsn, hidx]
+      rw [hra]
+      exact scanMailbox_spec mb st snapshot r ty f hlen hs mb' st' res h
+
+
+theorem nthRecv_lt : ∀ (l : List (Source V)) (k : Nat) x, nthRecv l k = some x → k < receiveCount l := by
+  intro l
+  induction l with
+  | nil => intro k x h; simp [nthRecv] at h
+  | cons s rest ih =>
+    intro k x h
+    cases s with
+    | receive ty f =>
+      cases k with
+      | zero => simp [receiveCount]
+      | succ n => simp only [nthRecv] at h; have := ih n x h; simp [receiveCount]; omega
+    | await p => simp only [nthRecv] at h; simpa [receiveCount] using ih k x h
+    | timeout ms => simp only [nthRecv] at h; simpa [receiveCount] using ih k x h
+    | invalid e => simp only [nthRecv] at h; simpa [receiveCount] using ih k x h
+
+/-- what the two maps of a process say about awaited target `t` -/
+def resultsOf (aw : AMap (Option V)) (awf : AMap ErrClass) : Nat → Option (Res V) := fun t =>
+  match amLookup t awf with
+  | some e => some (.err e)
+  | none =>
+    match amLookup t aw with
+    | some (some v) => some (.ok v)
+    | _ => none
+
+theorem knownResults_eq (p : Proc V) : p.knownResults = resultsOf p.awaiting p.awaitingFailed := rfl
+
+/-- every cursor is sound -/
+def AllSound (all : List (Source V)) (mb : List V) (cs : List Nat) : Prop :=
+  ∀ k ty f, nthRecv all k = some (ty, f) → SrcSound ty f mb (cs.getD k 0)
+
+/-- the held message is the one its source's cursor points at -/
+def HeldOK (all : List (Source V)) (mb : List V) (cs : List Nat) (rcv : Option (Nat × V)) : Prop :=
+  ∀ idx m, rcv = some (idx, m) →
+    ∃ ty g, nthRecv all idx = some (ty, some g) ∧ ty m = true ∧ mb[cs.getD idx 0]? = some m
+
+/-- The invariant threaded through the loop of `process_select_sources`, at the point where the
+    sources before receive index `r` have been handled. -/
+structure Thread (all : List (Source V)) (snapshot : SelState V) (verdict : Option (Yield V))
+    (mb : List V) (r : Nat) (st : SelState V) : Prop where
+  len : st.cursors.length = receiveCount all
+  sound : AllSound all mb st.cursors
+  srcs : st.sources = all
+  start : st.startTime = snapshot.startTime
+  live : ∀ idx m, st.receiving = some (idx, m) → r ≤ idx ∧ snapshot.receiving = some (idx, m)
+  pending : ∀ idx m, snapshot.receiving = some (idx, m) → r ≤ idx →
+    ∃ ty g rr, nthRecv all idx = some (ty, some g) ∧ g m = .ret rr ∧ verdict = some rr ∧
+      ty m = true ∧ mb[st.cursors.getD idx 0]? = some m
+
+theorem Thread.held {all : List (Source V)} {snapshot verdict mb r st}
+    (t : Thread all snapshot verdict mb r st) : HeldOK all mb st.cursors st.receiving := by
+  intro idx m h
+  obtain ⟨h1, h2⟩ := t.live idx m h
+  obtain ⟨ty, g, rr, h3, _, _, h6, h7⟩ := t.pending idx m h2 h1
+  exact ⟨ty, g, h3, h6, h7⟩
+
+/-- Post-condition of the loop on the remaining sources `srcs`. -/
+def ScanPost (all : List (Source V)) (aw : AMap (Option V)) (awf : AMap ErrClass) (start now : Nat)
+    (srcs : List (Source V)) (mb : List V) (st0 : SelState V) (mb' : List V) (st' : SelState V) : StepRes V → Prop
+  | .completed y =>
+      ∃ taken, selectSpec mb (resultsOf aw awf) start now srcs = .yields y taken ∧
+        mb' = (match taken with | none => mb | some i => mb.eraseIdx i)
+  | .failed e => selectSpec mb (resultsOf aw awf) start now srcs = .fails e ∧ mb' = mb
+  | .parked =>
+      selectSpec mb (resultsOf aw awf) start now srcs = .notReady ∧ mb' = mb ∧ st'.receiving = none ∧
+        st'.sources = all ∧ st'.startTime = st0.startTime ∧ st'.cursors.length = receiveCount all ∧
+        AllSound all mb st'.cursors
+  | .calledFilter =>
+      mb' = mb ∧ st'.sources = all ∧ st'.startTime = st0.startTime ∧ st'.cursors.length = receiveCount all ∧
+        AllSound all mb st'.cursors ∧ HeldOK all mb st'.cursors st'.receiving ∧ st'.receiving.isSome
+  | .awaitAction _ => False
+  | .initialized => False
+  | .panic => False
+
+theorem scanSources_spec (all : List (Source V)) (aw : AMap (Option V)) (awf : AMap ErrClass)
+    (snapshot : SelState V) (verdict : Option (Yield V)) (start now : Nat) :
+    ∀ (srcs : List (Source V)) (r : Nat) (mb : List V) (st : SelState V),
+      (∀ k, nthRecv srcs k = nthRecv all (r + k)) →
+      Thread all snapshot verdict mb r st →
+      ∀ mb' st' res, scanSources aw awf snapshot verdict start now srcs r mb st = (mb', st', res) →
+        ScanPost all aw awf start now srcs mb snapshot mb' st' res := by
+  intro srcs
+  induction srcs with
+  | nil =>
+    intro r mb st hsuf t mb' st' res h
+    simp only [scanSources, Prod.mk.injEq] at h
+    obtain ⟨rfl, rfl, rfl⟩ := h
+    refine ⟨rfl, rfl, ?_, t.srcs, t.start, t.len, t.sound⟩
+    cases hrc : st.receiving with
+    | none => rfl
+    | some im =>
+      obtain ⟨idx, m⟩ := im
+      obtain ⟨h1, h2⟩ := t.live idx m hrc
+      obtain ⟨ty, g, rr, h3, _⟩ := t.pending idx m h2 h1
+      have := hsuf (idx - r)
+      have e : r + (idx - r) = idx := by omega
+      rw [e, h3] at this
+      simp [nthRecv] at this
+  | cons s rest ih =>
+    intro r mb st hsuf t mb' st' res h
+    cases s with
+    | timeout ms =>
+      simp only [scanSources] at h
+      have hsuf' : ∀ k, nthRecv rest k = nthRecv all (r + k) := fun k => by
+        have := hsuf k; simpa [nthRecv] using this
+      by_cases hexp : expired ms start now = true
+      · simp only [hexp, if_true, Prod.mk.injEq] at h
+        obtain ⟨rfl, rfl, rfl⟩ := h
+        refine ⟨none, ?_, rfl⟩
+        have : effDur ms ≤ now - start := by simpa [expired] using hexp
+        simp [selectSpec, this]
+      · simp only [hexp] at h
+        have hpost := ih r mb st hsuf' t mb' st' res h
+        have hne : ¬ effDur ms ≤ now - start := by simpa [expired] using hexp
+        cases res <;> simp [ScanPost, selectSpec, hne] at hpost ⊢ <;> exact hpost
+    | await tgt =>
+      simp only [scanSources] at h
+      have hsuf' : ∀ k, nthRecv rest k = nthRecv all (r + k) := fun k => by
+        have := hsuf k; simpa [nthRecv] using this
+      cases hf : amLookup tgt awf with
+      | some e =>
+        simp only [hf, Prod.mk.injEq] at h
+        obtain ⟨rfl, rfl, rfl⟩ := h
+        refine ⟨?_, rfl⟩
+        simp [selectSpec, resultsOf, hf]
+      | none =>
+        simp only [hf] at h
+        cases ha : amLookup tgt aw with
+        | none =>
+          simp only [ha] at h
+          have hpost := ih r mb st hsuf' t mb' st' res h
+          cases res <;> simp [ScanPost, selectSpec, resultsOf, hf, ha] at hpost ⊢ <;> exact hpost
+        | some ov =>
+          cases ov with
+          | none =>
+            simp only [ha] at h
+            have hpost := ih r mb st hsuf' t mb' st' res h
+            cases res <;> simp [ScanPost, selectSpec, resultsOf, hf, ha] at hpost ⊢ <;> exact hpost
+          | some v =>
+            simp only [ha, Prod.mk.injEq] at h
+            obtain ⟨rfl, rfl, rfl⟩ := h
+            refine ⟨none, ?_, rfl⟩
+            simp [selectSpec, resultsOf, hf, ha]
+    | invalid e =>
+      simp only [scanSources, Prod.mk.injEq] at h
+      obtain ⟨rfl, rfl, rfl⟩ := h
+      exact ⟨by simp [selectSpec], rfl⟩
+    | receive ty f =>
+      simp only [scanSources] at h
+      have hhead : nthRecv all r = some (ty, f) := by
+        have := hsuf 0; simpa [nthRecv] using this.symm
+      have hsuf' : ∀ k, nthRecv rest k = nthRecv all (r + 1 + k) := fun k => by
+        have := hsuf (k + 1)
+        simp only [nthRecv] at this
+        rw [this]; congr 1; omega
+      have hlen : r < st.cursors.length := by
+        rw [t.len]; exact nthRecv_lt all r _ hhead
+      have hs : SrcSound ty f mb (st.cursors.getD r 0) := t.sound r ty f hhead
+      have hr : RecvOK snapshot verdict mb (st.cursors.getD r 0) r ty f := by
+        intro m hm
+        obtain ⟨ty', g, rr, h3, h4, h5, h6, h7⟩ := t.pending r m hm (Nat.le_refl _)
+        rw [hhead] at h3
+        simp only [Option.some.injEq, Prod.mk.injEq] at h3
+        obtain ⟨rfl, rfl⟩ := h3
+        exact ⟨g, rr, rfl, h4, h5, h6, h7⟩
+      cases hres : handleSelectReceive mb st snapshot r ty f verdict with
+      | mk mb1 rest1 =>
+        obtain ⟨st1, rres⟩ := rest1
+        have hpost := handleSelectReceive_spec mb st snapshot r ty f verdict hlen hs hr mb1 st1 rres hres
+        rw [hres] at h
+        cases rres with
+        | complete m =>
+          simp only [Prod.mk.injEq] at h
+          obtain ⟨rfl, rfl, rfl⟩ := h
+          obtain ⟨i, h1, h2, h3⟩ := hpost
+          refine ⟨some i, ?_, h3⟩
+          simp [selectSpec, h1, h2]
+        | called =>
+          simp only [Prod.mk.injEq] at h
+          obtain ⟨rfl, rfl, rfl⟩ := h
+          obtain ⟨h1, i, m, g, h2, h3, h4, h5, h6⟩ := hpost
+          have h1' := h1.symm
+          subst h1' h3
+          have hsound' : AllSound all mb (st.cursors.set r i) := by
+            intro k ty' f' hk
+            by_cases hkr : k = r
+            · subst hkr
+              rw [hhead] at hk
+              simp only [Option.some.injEq, Prod.mk.injEq] at hk
+              obtain ⟨rfl, rfl⟩ := hk
+              rw [getD_set_self _ _ _ hlen]; exact h4
+            · rw [getD_set_ne _ _ _ _ hkr]; exact t.sound k ty' f' hk
+          refine ⟨rfl, t.srcs, t.start, by simpa using t.len, hsound', ?_, rfl⟩
+          intro idx m' hm'
+          simp only [Option.some.injEq, Prod.mk.injEq] at hm'
+          obtain ⟨rfl, rfl⟩ := hm'
+          refine ⟨ty, g, by rw [hhead, h2], h5, ?_⟩
+          simp only []
+          rw [getD_set_self _ _ _ hlen]; exact h6
+        | continue_ =>
+          simp only [] at h
+          obtain ⟨h1, h2, c', h3, h4⟩ := hpost
+          have h1' := h1.symm
+          subst h1' h4
+          have t' : Thread all snapshot verdict mb (r + 1)
+              { st with cursors := st.cursors.set r c', receiving := rcvAfter snapshot st r } := by
+            refine ⟨by simpa using t.len, ?_, t.srcs, t.start, ?_, ?_⟩
+            · intro k ty' f' hk
+              by_cases hkr : k = r
+              · subst hkr
+                rw [hhead] at hk
+                simp only [Option.some.injEq, Prod.mk.injEq] at hk
+                obtain ⟨rfl, rfl⟩ := hk
+                simp only []
+                rw [getD_set_self _ _ _ hlen]; exact h3
+              · simp only []
+                rw [getD_set_ne _ _ _ _ hkr]; exact t.sound k ty' f' hk
+            · intro idx m hm
+              simp only [rcvAfter] at hm
+              cases hsn : snapshot.receiving with
+              | none =>
+                rw [hsn] at hm
+                obtain ⟨_, h6⟩ := t.live idx m hm
+                rw [hsn] at h6; cases h6
+              | some im0 =>
+                obtain ⟨idx0, m0⟩ := im0
+                rw [hsn] at hm
+                simp only [] at hm
+                by_cases h0 : idx0 = r
+                · simp [h0] at hm
+                · simp only [h0, if_false] at hm
+                  obtain ⟨h5, h6⟩ := t.live idx m hm
+                  rw [hsn] at h6
+                  simp only [Option.some.injEq, Prod.mk.injEq] at h6
+                  obtain ⟨rfl, rfl⟩ := h6
+                  refine ⟨by omega, rfl⟩
+            · intro idx m hm hle
+              obtain ⟨ty', g, rr, h5, h6, h7, h8, h9⟩ := t.pending idx m hm (by omega)
+              refine ⟨ty', g, rr, h5, h6, h7, h8, ?_⟩
+              simp only []
+              rw [getD_set_ne _ _ _ _ (by omega)]; exact h9
+          have hpost2 := ih (r + 1) mb _ hsuf' t' mb' st' res h
+          cases res <;> simp [ScanPost, selectSpec, h2] at hpost2 ⊢ <;> exact hpost2
+        | error e => exact hpost.elim
+        | panic => exact hpost.elim
+
+
+/-- The select invariant (`cursor_sound` is its `sound` field): one cursor per receive source, every
+    message before a cursor was rejected by that source, a held message is the one its source's
+    cursor points at. -/
+structure Inv (mb : List V) (st : SelState V) : Prop where
+  len : st.cursors.length = receiveCount st.sources
+  sound : AllSound st.sources mb st.cursors
+  held : HeldOK st.sources mb st.cursors st.receiving
+
+/-- The value on the stack is what the pending (pure) receive function returns on the held message. -/
+def VerdictOf (st : SelState V) (top : Yield V) : Prop :=
+  ∀ fr, pendingFilterRes st = some fr → fr = .ret top
+
+theorem pending_of_held {mb : List V} {st : SelState V} (hinv : Inv mb st) {idx : Nat} {m : V}
+    (h : st.receiving = some (idx, m)) :
+    ∃ ty g, nthRecv st.sources idx = some (ty, some g) ∧ pendingFilterRes st = some (g m) ∧ ty m = true ∧
+      mb[st.cursors.getD idx 0]? = some m := by
+  obtain ⟨ty, g, h1, h2, h3⟩ := hinv.held idx m h
+  exact ⟨ty, g, h1, by simp [pendingFilterRes, h, h1], h2, h3⟩
+
+/-- Post-condition of `reenterSelect` (phases 3–4 of `handle_select`). -/
+def ReenterPost (p : Proc V) (st : SelState V) (now : Nat) (p' : Proc V) : StepRes V → Prop
+  | .completed y =>
+      ∃ taken, selectSpec p.mailbox p.knownResults (st.startTime.getD now) now st.sources = .yields y taken ∧
+        p'.mailbox = (match taken with | none => p.mailbox | some i => p.mailbox.eraseIdx i) ∧
+        p'.sel = none ∧ p'.awaiting = dropAwaits st.sources p.awaiting ∧
+        p'.awaitingFailed = dropAwaits st.sources p.awaitingFailed ∧ p'.result = p.result
+  | .failed e =>
+      selectSpec p.mailbox p.knownResults (st.startTime.getD now) now st.sources = .fails e ∧
+        p'.mailbox = p.mailbox ∧ p'.result = p.result
+  | .parked =>
+      selectSpec p.mailbox p.knownResults (st.startTime.getD now) now st.sources = .notReady ∧
+        p'.mailbox = p.mailbox ∧ p'.awaiting = p.awaiting ∧ p'.awaitingFailed = p.awaitingFailed ∧
+        p'.result = p.result ∧
+        ∃ st', p'.sel = some st' ∧ Inv p.mailbox st' ∧ st'.receiving = none ∧
+          st'.sources = st.sources ∧ st'.startTime = some (st.startTime.getD now)
+  | .calledFilter =>
+      p'.mailbox = p.mailbox ∧ p'.awaiting = p.awaiting ∧ p'.awaitingFailed = p.awaitingFailed ∧
+        p'.result = p.result ∧
+        ∃ st', p'.sel = some st' ∧ Inv p.mailbox st' ∧ st'.receiving.isSome ∧
+          st'.sources = st.sources ∧ st'.startTime = some (st.startTime.getD now)
+  | .awaitAction _ => False
+  | .initialized => False
+  | .panic => False
+
+theorem reenterSelect_spec (p : Proc V) (st : SelState V) (verdict : Option (Yield V)) (now : Nat)
+    (hinv : Inv p.mailbox st)
+    (hv : ∀ idx m ty g, st.receiving = some (idx, m) → nthRecv st.sources idx = some (ty, some g) →
+      ∃ rr, g m = .ret rr ∧ verdict = some rr)
+    (p' : Proc V) (res : StepRes V) (h : reenterSelect p st verdict now = (p', res)) :
+    ReenterPost p st now p' res := by
+  unfold reenterSelect at h
+  simp only [] at h
+  have t : Thread st.sources { st with startTime := some (st.startTime.getD now) } verdict p.mailbox 0
+      { st with startTime := some (st.startTime.getD now) } := by
+    refine ⟨hinv.len, hinv.sound, rfl, rfl, ?_, ?_⟩
+    · intro idx m hm; exact ⟨Nat.zero_le _, hm⟩
+    · intro idx m hm _
+      obtain ⟨ty, g, h1, h2, h3⟩ := hinv.held idx m hm
+      obtain ⟨rr, h4, h5⟩ := hv idx m ty g hm h1
+      exact ⟨ty, g, rr, h1, h4, h5, h2, h3⟩
+  cases hscan : scanSources p.awaiting p.awaitingFailed { st with startTime := some (st.startTime.getD now) }
+      verdict (st.startTime.getD now) now st.sources 0 p.mailbox
+      { st with startTime := some (st.startTime.getD now) } with
+  | mk mb' rest =>
+    obtain ⟨st', r⟩ := rest
+    have hpost := scanSources_spec st.sources p.awaiting p.awaitingFailed _ verdict _ now st.sources 0
+      p.mailbox _ (fun k => by simp) t mb' st' r hscan
+    rw [hscan] at h
+    cases r with
+    | completed y =>
+      simp only [Prod.mk.injEq] at h
+      obtain ⟨rfl, rfl⟩ := h
+      obtain ⟨taken, h1, h2⟩ := hpost
+      exact ⟨taken, h1, h2, rfl, rfl, rfl, rfl⟩
+    | failed e =>
+      simp only [Prod.mk.injEq] at h
+      obtain ⟨rfl, rfl⟩ := h
+      exact ⟨hpost.1, hpost.2, rfl⟩
+    | parked =>
+      simp only [Prod.mk.injEq] at h
+      obtain ⟨rfl, rfl⟩ := h
+      obtain ⟨h1, h2, h3, h4, h5, h6, h7⟩ := hpost
+      refine ⟨h1, h2, rfl, rfl, rfl, st', rfl, ⟨by rw [h4]; exact h6, by rw [h4]; exact h7, ?_⟩, h3, h4, h5⟩
+      rw [h3]; intro idx m hm; cases hm
+    | calledFilter =>
+      simp only [Prod.mk.injEq] at h
+      obtain ⟨rfl, rfl⟩ := h
+      obtain ⟨h1, h2, h3, h4, h5, h6, h7⟩ := hpost
+      exact ⟨h1, rfl, rfl, rfl, st', rfl, ⟨by rw [h2]; exact h4, by rw [h2]; exact h5, by rw [h2]; exact h6⟩, h7, h2, h3⟩
+    | awaitAction ts => exact hpost.elim
+    | initialized => exact hpost.elim
+    | panic => exact hpost.elim
+
+
+/-! ### `handleSelect` on an existing state, with the verdict of a pure filter -/
+
+theorem handleSelect_spec (p : Proc V) (st : SelState V) (now : Nat) (srcs : List (Source V)) (top : Yield V)
+    (hsel : p.sel = some st) (hinv : Inv p.mailbox st) (hv : VerdictOf st top)
+    (p' : Proc V) (res : StepRes V) (h : handleSelect p now srcs top = (p', res)) :
+    ReenterPost p st now p' res := by
+  unfold handleSelect at h
+  rw [hsel] at h
+  simp only [] at h
+  apply reenterSelect_spec p st _ now hinv _ p' res h
+  intro idx m ty g hm hn
+  have hp : pendingFilterRes st = some (g m) := by simp [pendingFilterRes, hm, hn]
+  have := hv (g m) hp
+  exact ⟨top, this, by simp [hm]⟩
+
+/-! ### the invariant is established by `initialize_select` and kept by arrivals -/
+
+theorem SrcSound.zero (ty : V → Bool) (f) (mb : List V) : SrcSound ty f mb 0 := ⟨Nat.zero_le _, by simp⟩
+
+theorem getD_replicate_zero (n k : Nat) : (List.replicate n 0).getD k 0 = 0 := by
+  simp [List.getD, List.getElem?_replicate]
+  split <;> rfl
+
+theorem initializeSelect_inv (p : Proc V) (srcs : List (Source V)) (now : Nat) (p' : Proc V) (res : StepRes V)
+    (h : initializeSelect p srcs now = (p', res)) :
+    p'.mailbox = p.mailbox ∧ p'.result = p.result ∧
+    ∃ st, p'.sel = some st ∧ Inv p.mailbox st ∧ st.sources = srcs ∧ st.receiving = none ∧
+      (∀ k, st.cursors.getD k 0 = 0) ∧
+      ((pidTargets srcs = [] ∧ st.startTime = some now ∧ res = .initialized ∧ p'.awaiting = p.awaiting) ∨
+       (pidTargets srcs ≠ [] ∧ st.startTime = none ∧ res = .awaitAction (pidTargets srcs) ∧
+         p'.awaiting = registerAwaits (pidTargets srcs) p.awaiting)) := by
+  unfold initializeSelect at h
+  simp only [] at h
+  have hI : ∀ (stt : Option Nat), Inv p.mailbox
+      { sources := srcs, cursors := List.replicate (receiveCount srcs) 0, startTime := stt, receiving := none } := by
+    intro stt
+    refine ⟨by simp, ?_, ?_⟩
+    · intro k ty f _
+      simp only []
+      rw [getD_replicate_zero]; exact SrcSound.zero ty f _
+    · intro idx m hm; cases hm
+  by_cases ht : (pidTargets srcs).isEmpty = true
+  · simp only [ht, if_true, Prod.mk.injEq] at h
+    obtain ⟨rfl, rfl⟩ := h
+    refine ⟨rfl, rfl, _, rfl, hI _, rfl, rfl, fun k => getD_replicate_zero _ k, Or.inl ⟨?_, rfl, rfl, rfl⟩⟩
+    simpa using ht
+  · simp only [ht] at h
+    simp only [Bool.false_eq_true, if_false, Prod.mk.injEq] at h
+    obtain ⟨rfl, rfl⟩ := h
+    refine ⟨rfl, rfl, _, rfl, hI _, rfl, rfl, fun k => getD_replicate_zero _ k, Or.inr ⟨?_, rfl, rfl, rfl⟩⟩
+    simpa using ht
+
+theorem SrcSound.append (ty : V → Bool) (f) (mb : List V) (c : Nat) (m : V) (h : SrcSound ty f mb c) :
+    SrcSound ty f (mb ++ [m]) c := by
+  refine ⟨by have := h.le; simp; omega, ?_⟩
+  intro x hx
+  rw [List.take_append_of_le_length h.le] at hx
+  exact h.rejected x hx
+
+theorem Inv.pushMessage {mb : List V} {st : SelState V} (h : Inv mb st) (m : V) : Inv (mb ++ [m]) st := by
+  refine ⟨h.len, ?_, ?_⟩
+  · intro k ty f hk; exact (h.sound k ty f hk).append ty f mb _ m
+  · intro idx m' hm
+    obtain ⟨ty, g, h1, h2, h3⟩ := h.held idx m' hm
+    refine ⟨ty, g, h1, h2, ?_⟩
+    obtain ⟨hlt, hget⟩ := List.getElem?_eq_some_iff.mp h3
+    rw [List.getElem?_append_left hlt]; exact h3
+
+/-! ### the verdict is only inspected for nil-ness -/
+
+theorem handleReceiveResult_value_irrel (mb : List V) (st : SelState V) (r : Nat) (m a b : V) :
+    handleReceiveResult mb st r m (some (.value a)) = handleReceiveResult mb st r m (some (.value b)) := rfl
+
+theorem handleSelectReceive_value_irrel (mb : List V) (st snap : SelState V) (r : Nat) (ty) (f) (a b : V) :
+    handleSelectReceive mb st snap r ty f (some (.value a)) = handleSelectReceive mb st snap r ty f (some (.value b)) := by
+  unfold handleSelectReceive
+  cases snap.receiving with
+  | none => rfl
+  | some im => obtain ⟨idx, m⟩ := im; simp only [handleReceiveResult_value_irrel mb st r m a b]
+
+theorem scanSources_value_irrel (aw : AMap (Option V)) (awf) (snap : SelState V) (start now : Nat) (a b : V) :
+    ∀ (srcs : List (Source V)) (r : Nat) (mb : List V) (st : SelState V),
+      scanSources aw awf snap (some (.value a)) start now srcs r mb st =
+      scanSources aw awf snap (some (.value b)) start now srcs r mb st := by
+  intro srcs
+  induction srcs with
+  | nil => intros; rfl
+  | cons s rest ih =>
+    intro r mb st
+    cases s with
+    | timeout ms => simp only [scanSources, ih]
+    | await t => simp only [scanSources, ih]
+    | invalid e => simp only [scanSources]
+    | receive ty f =>
+      simp only [scanSources, handleSelectReceive_value_irrel mb st snap r ty f a b, ih]
+
+
+/-! ### expiry -/
+
+theorem listMin_none : ∀ (l : List Nat), listMin l = none ↔ l = [] := by
+  intro l
+  cases l with
+  | nil => simp [listMin]
+  | cons x xs =>
+    simp only [listMin]
+    cases listMin xs <;> simp
+
+theorem listMin_some : ∀ (l : List Nat) (m : Nat), listMin l = some m → m ∈ l ∧ ∀ x ∈ l, m ≤ x := by
+  intro l
+  induction l with
+  | nil => intro m h; simp [listMin] at h
+  | cons x xs ih =>
+    intro m h
+    simp only [listMin] at h
+    cases hx : listMin xs with
+    | none =>
+      rw [hx] at h
+      simp only [Option.some.injEq] at h
+      subst h
+      have : xs = [] := (listMin_none xs).mp hx
+      subst this
+      simp
+    | some m' =>
+      rw [hx] at h
+      simp only [Option.some.injEq] at h
+      obtain ⟨h1, h2⟩ := ih m' hx
+      subst h
+      constructor
+      · by_cases hle : x ≤ m'
+        · simp [Nat.min_eq_left hle]
+        · have : min x m' = m' := Nat.min_eq_right (by omega)
+          rw [this]; simp [h1]
+      · intro y hy
+        rcases List.mem_cons.mp hy with rfl | hy
+        · exact Nat.min_le_left _ _
+        · exact Nat.le_trans (Nat.min_le_right _ _) (h2 y hy)
+
+/-- the expiry filter of `check_expired_timeouts`, spelled out -/
+theorem timeoutExpired_iff (p : Proc V) (now : Nat) :
+    p.timeoutExpired now = true ↔
+      ∃ st s ms, p.sel = some st ∧ st.startTime = some s ∧ Source.timeout ms ∈ st.sources ∧
+        effDur ms ≤ now - s := by
+  cases hsel : p.sel with
+  | none => simp [Proc.timeoutExpired, hsel]
+  | some st =>
+    cases hst : st.startTime with
+    | none => simp [Proc.timeoutExpired, hsel, hst]
+    | some s =>
+      simp only [Proc.timeoutExpired, hsel, hst, List.any_eq_true]
+      constructor
+      · rintro ⟨src, hmem, hsrc⟩
+        cases src with
+        | timeout ms => exact ⟨st, s, ms, rfl, hst, hmem, by simpa [expired] using hsrc⟩
+        | await _ => simp at hsrc
+        | receive _ _ => simp at hsrc
+        | invalid _ => simp at hsrc
+      · rintro ⟨st', s', ms, h1, h2, h3, h4⟩
+        simp only [Option.some.injEq] at h1
+        subst h1
+        rw [hst] at h2
+        simp only [Option.some.injEq] at h2
+        subst h2
+        exact ⟨.timeout ms, h3, by simpa [expired] using h4⟩
+
+theorem mem_timeoutDurs (srcs : List (Source V)) (d : Nat) :
+    d ∈ srcs.filterMap Source.timeoutDur ↔ ∃ ms, Source.timeout ms ∈ srcs ∧ effDur ms = d := by
+  simp only [List.mem_filterMap]
+  constructor
+  · rintro ⟨src, hmem, hsrc⟩
+    cases src with
+    | timeout ms => exact ⟨ms, hmem, by simpa [Source.timeoutDur] using hsrc⟩
+    | await _ => simp [Source.timeoutDur] at hsrc
+    | receive _ _ => simp [Source.timeoutDur] at hsrc
+    | invalid _ => simp [Source.timeoutDur] at hsrc
+  · rintro ⟨ms, hmem, rfl⟩
+    exact ⟨.timeout ms, hmem, rfl⟩
+
+/-- `next_timeout_ms` of one process: start + the least duration, saturated at `u64::MAX`. -/
+theorem nextExpiry_some (p : Proc V) (e : Nat) :
+    p.nextExpiry = some e ↔
+      ∃ st s t, p.sel = some st ∧ st.startTime = some s ∧ e = min (s + t) u64Max ∧
+        (∃ ms, Source.timeout ms ∈ st.sources ∧ effDur ms = t) ∧
+        (∀ ms, Source.timeout ms ∈ st.sources → t ≤ effDur ms) := by
+  cases hsel : p.sel with
+  | none => simp [Proc.nextExpiry, hsel]
+  | some st =>
+    cases hst : st.startTime with
+    | none => simp [Proc.nextExpiry, hsel, hst]
+    | some s =>
+      cases hm : listMin (st.sources.filterMap Source.timeoutDur) with
+      | none =>
+        simp only [Proc.nextExpiry, hsel, hst, hm]
+        constructor
+        · intro h; cases h
+        · rintro ⟨st', s', t, h1, _, _, ⟨ms, h4, h5⟩, _⟩
+          simp only [Option.some.injEq] at h1; subst h1
+          have : effDur ms ∈ st.sources.filterMap Source.timeoutDur := (mem_timeoutDurs _ _).mpr ⟨ms, h4, rfl⟩
+          rw [(listMin_none _).mp hm] at this
+          simp at this
+      | some t =>
+        obtain ⟨h1, h2⟩ := listMin_some _ t hm
+        simp only [Proc.nextExpiry, hsel, hst, hm, Option.some.injEq]
+        constructor
+        · intro h
+          refine ⟨st, s, t, rfl, hst, h.symm, (mem_timeoutDurs _ _).mp h1, ?_⟩
+          intro ms hms
+          exact h2 _ ((mem_timeoutDurs _ _).mpr ⟨ms, hms, rfl⟩)
+        · rintro ⟨st', s', t', h3, h4, h5, ⟨ms, h6, h7⟩, h8⟩
+          subst h3
+          rw [hst] at h4
+          simp only [Option.some.injEq] at h4
+          subst h4
+          have ht : t' = t := by
+            have a : t ≤ t' := by
+              rw [← h7]; exact h2 _ ((mem_timeoutDurs _ _).mpr ⟨ms, h6, rfl⟩)
+            obtain ⟨ms', h9, h10⟩ := (mem_timeoutDurs _ _).mp h1
+            have b : t' ≤ t := by rw [← h10]; exact h8 ms' h9
+            omega
+          rw [h5, ht]
+
+/-- With a clock that has not gone backwards and is below `u64::MAX`, a parked process's timeout has
+    expired exactly when its `next_timeout_ms` instant has been reached. -/
+theorem timeoutExpired_iff_nextExpiry_le (p : Proc V) (st : SelState V) (s now : Nat)
+    (hsel : p.sel = some st) (hst : st.startTime = some s) (hmono : s ≤ now) (hnow : now < u64Max) :
+    p.timeoutExpired now = true ↔ ∃ e, p.nextExpiry = some e ∧ e ≤ now := by
+  rw [timeoutExpired_iff]
+  constructor
+  · rintro ⟨st', s', ms, h1, h2, h3, h4⟩
+    rw [hsel] at h1; simp only [Option.some.injEq] at h1; subst h1
+    rw [hst] at h2; simp only [Option.some.injEq] at h2; subst h2
+    have hmem : effDur ms ∈ st.sources.filterMap Source.timeoutDur := (mem_timeoutDurs _ _).mpr ⟨ms, h3, rfl⟩
+    cases hm : listMin (st.sources.filterMap Source.timeoutDur) with
+    | none => rw [(listMin_none _).mp hm] at hmem; simp at hmem
+    | some t =>
+      obtain ⟨_, h6⟩ := listMin_some _ t hm
+      have := h6 _ hmem
+      refine ⟨min (s + t) u64Max, by simp [Proc.nextExpiry, hsel, hst, hm], ?_⟩
+      have : s + t ≤ now := by omega
+      exact Nat.le_trans (Nat.min_le_left _ _) this
+  · rintro ⟨e, he, hle⟩
+    obtain ⟨st', s', t, h1, h2, h3, ⟨ms, h4, h5⟩, _⟩ := (nextExpiry_some p e).mp he
+    rw [hsel] at h1; simp only [Option.some.injEq] at h1; subst h1
+    rw [hst] at h2; simp only [Option.some.injEq] at h2; subst h2
+    refine ⟨st, s, ms, hsel, hst, h4, ?_⟩
+    rw [h5]
+    have : s + t ≤ now := by
+      by_cases hc : s + t ≤ u64Max
+      · rw [Nat.min_eq_left hc] at h3; omega
+      · have : min (s + t) u64Max = u64Max := Nat.min_eq_right (by omega)
+        rw [this] at h3; omega
+    omega
+
+
+theorem scanMailbox_startTime (mb : List V) (st snap : SelState V) (r : Nat) (ty) (f) :
+    (scanMailbox mb st snap r ty f).2.1.startTime = st.startTime ∧
+    (scanMailbox mb st snap r ty f).2.1.sources = st.sources := by
+  unfold scanMailbox
+  simp only []
+  split
+  · split
+    · exact ⟨rfl, rfl⟩
+    · split <;> exact ⟨rfl, rfl⟩
+  · split <;> exact ⟨rfl, rfl⟩
+
+theorem handleReceiveResult_startTime (mb : List V) (st : SelState V) (r : Nat) (m : V) (verdict) :
+    (handleReceiveResult mb st r m verdict).2.1.startTime = st.startTime ∧
+    (handleReceiveResult mb st r m verdict).2.1.sources = st.sources := by
+  cases verdict with
+  | none => exact ⟨rfl, rfl⟩
+  | some y =>
+    cases y with
+    | value a => exact ⟨rfl, rfl⟩
+    | nil =>
+      simp only [handleReceiveResult]
+      split <;> exact ⟨rfl, rfl⟩
+
+theorem handleSelectReceive_startTime (mb : List V) (st snap : SelState V) (r : Nat) (ty) (f) (verdict) :
+    (handleSelectReceive mb st snap r ty f verdict).2.1.startTime = st.startTime ∧
+    (handleSelectReceive mb st snap r ty f verdict).2.1.sources = st.sources := by
+  unfold handleSelectReceive
+  cases snap.receiving with
+  | none => exact scanMailbox_startTime mb st snap r ty f
+  | some im =>
+    obtain ⟨idx, m⟩ := im
+    simp only []
+    by_cases hidx : idx = r
+    · simp only [hidx, if_true]
+      have h0 := handleReceiveResult_startTime mb st r m verdict
+      cases hrr : handleReceiveResult mb st r m verdict with
+      | mk mb1 rest1 =>
+        obtain ⟨st1, hr⟩ := rest1
+        rw [hrr] at h0
+        simp only [] at h0
+        cases hr with
+        | accept v => exact h0
+        | rejected =>
+          simp only []
+          have := scanMailbox_startTime mb1 st1 snap r ty f
+          exact ⟨this.1.trans h0.1, this.2.trans h0.2⟩
+        | error e => exact h0
+        | panic => exact h0
+    · simp only [hidx, if_false]
+      exact scanMailbox_startTime mb st snap r ty f
+
+theorem scanSources_startTime (aw : AMap (Option V)) (awf) (snap : SelState V) (verdict) (start now : Nat) :
+    ∀ (srcs : List (Source V)) (r : Nat) (mb : List V) (st : SelState V) mb' st' res,
+      scanSources aw awf snap verdict start now srcs r mb st = (mb', st', res) →
+      st'.startTime = st.startTime := by
+  intro srcs
+  induction srcs with
+  | nil => intro r mb st mb' st' res h; simp only [scanSources, Prod.mk.injEq] at h; rw [← h.2.1]
+  | cons s rest ih =>
+    intro r mb st mb' st' res h
+    cases s with
+    | timeout ms =>
+      simp only [scanSources] at h
+      split at h
+      · simp only [Prod.mk.injEq] at h; rw [← h.2.1]
+      · exact ih r mb st mb' st' res h
+    | await t =>
+      simp only [scanSources] at h
+      split at h
+      · simp only [Prod.mk.injEq] at h; rw [← h.2.1]
+      · split at h
+        · simp only [Prod.mk.injEq] at h; rw [← h.2.1]
+        · exact ih r mb st mb' st' res h
+    | invalid e => simp only [scanSources, Prod.mk.injEq] at h; rw [← h.2.1]
+    | receive ty f =>
+      simp only [scanSources] at h
+      have hst := (handleSelectReceive_startTime mb st snap r ty f verdict).1
+      cases hres : handleSelectReceive mb st snap r ty f verdict with
+      | mk mb1 rest1 =>
+        obtain ⟨st1, rres⟩ := rest1
+        rw [hres] at h hst
+        simp only [] at hst
+        cases rres with
+        | complete m => simp only [Prod.mk.injEq] at h; rw [← h.2.1]; exact hst
+        | called => simp only [Prod.mk.injEq] at h; rw [← h.2.1]; exact hst
+        | continue_ => simp only [] at h; rw [ih (r + 1) mb1 st1 mb' st' res h]; exact hst
+        | error e => simp only [Prod.mk.injEq] at h; rw [← h.2.1]; exact hst
+        | panic => simp only [Prod.mk.injEq] at h; rw [← h.2.1]; exact hst
+
+
+theorem verdictOf_of_pending (st : SelState V) (r : Yield V) (h : pendingFilterRes st = some (.ret r)) :
+    VerdictOf st r := by
+  intro fr hfr; rw [h] at hfr; simp only [Option.some.injEq] at hfr; exact hfr.symm
+
+theorem verdictOf_of_none (st : SelState V) (r : Yield V) (h : pendingFilterRes st = none) :
+    VerdictOf st r := by
+  intro fr hfr; rw [h] at hfr; cases hfr
+
+theorem stepSelect_proj (p : Proc V) (now : Nat) (srcs : List (Source V)) (top : Yield V) :
+    (stepSelect p now srcs top).1.mailbox = (handleSelect p now srcs top).1.mailbox ∧
+    (stepSelect p now srcs top).1.sel = (handleSelect p now srcs top).1.sel ∧
+    (stepSelect p now srcs top).2 = (handleSelect p now srcs top).2 ∧
+    ((stepSelect p now srcs top).1.result = none → ∀ e, (handleSelect p now srcs top).2 ≠ .failed e) := by
+  unfold stepSelect
+  cases handleSelect p now srcs top with
+  | mk p' res => cases res <;> simp
+
+/-- `stepSelectPure` is `stepSelect` with a faithful verdict, unless the pending filter raises. -/
+theorem stepSelectPure_cases (p : Proc V) (now : Nat) (srcs : List (Source V)) :
+    (∃ e, stepSelectPure p now srcs = ({ p with result := some (.err e) }, .failed e)) ∨
+    (∃ top, stepSelectPure p now srcs = stepSelect p now srcs top ∧ ∀ st, p.sel = some st → VerdictOf st top) := by
+  unfold stepSelectPure
+  cases hsel : p.sel with
+  | none => right; exact ⟨.nil, by simp, by intro st h; cases h⟩
+  | some st =>
+    simp only [Option.bind_some]
+    cases hp : pendingFilterRes st with
+    | none =>
+      right; refine ⟨.nil, rfl, ?_⟩
+      intro st' h; simp only [Option.some.injEq] at h; subst h; exact verdictOf_of_none _ _ hp
+    | some fr =>
+      cases fr with
+      | fail e => left; exact ⟨e, rfl⟩
+      | ret r =>
+        right; refine ⟨r, rfl, ?_⟩
+        intro st' h; simp only [Option.some.injEq] at h; subst h; exact verdictOf_of_pending _ _ hp
+
+
 end QM.Exec
